@@ -207,6 +207,9 @@ class mpq(object):
             if t:
                 if t < 0:
                     a, b, t = b, a, -t
+                    # keep the denominator positive
+                    if b < 0:
+                        a, b = -a, -b
                 v = new(mpq)
                 v._mpq_ = a**t, b**t
                 return v
